@@ -172,6 +172,14 @@ def gen_real(rng, mechs=("rdp", "gdp", "prv")):
         c["steps"] = rng.randint(1, 3000) if rng.random() < 0.5 else rng.randint(1, 60)
         if rng.random() < 0.4:
             c["L"] = rng.randint(2, 12)
+    # the caller's accountant options (get_noise_multiplier's **kwargs) apply to every query of the search
+    if rng.random() < 0.3:
+        if mech == "gdp":
+            c["opts"] = {"poisson": False}
+        elif mech == "rdp":
+            c["opts"] = {"alphas": [float(a) for a in range(2, rng.choice([6, 10, 33]))]}
+        else:
+            c["opts"] = {"eps_error": rng.choice([0.05, 0.1])}
     return c
 
 
